@@ -182,8 +182,10 @@ func cmdCheck(args []string) int {
 				}
 			}
 		}
-		if len(rs) > 0 && len(rs) <= 24 {
-			sem := make(chan struct{}, 2)
+		// (more than a handful of unanswered obligations is a changed function, not solver
+		// noise: those are reported as they are)
+		if len(rs) > 0 && len(rs) <= 6 {
+			sem := make(chan struct{}, 3)
 			var rwg sync.WaitGroup
 			for _, r := range rs {
 				rwg.Add(1)
@@ -196,7 +198,14 @@ func cmdCheck(args []string) int {
 						t = sp.Timeout
 					}
 					old := allRes[r.ji][r.oi]
-					nr := solveOne(jobs[r.ji].g, old.Obl, dir, fmt.Sprintf("r%d_%d", r.ji, r.oi), 3*t)
+					rt := 3 * t
+					if rt > 240 {
+						rt = 240
+					}
+					if rt < t {
+						rt = t
+					}
+					nr := solveOne(jobs[r.ji].g, old.Obl, dir, fmt.Sprintf("r%d_%d", r.ji, r.oi), rt)
 					nr.Ms += old.Ms
 					if nr.Status != "noanswer" || nr.Candidate != nil {
 						allRes[r.ji][r.oi] = nr
